@@ -62,28 +62,44 @@ package scramblesuit
 //@   ensures [C15:session_keys_from_hkdf_expand] err == nil ==> csOK(conn.txCrypto) && csOK(conn.rxCrypto) && fresh(conn.txCrypto) && fresh(conn.rxCrypto) && conn.txCrypto != conn.rxCrypto
 //@       && conn.txCrypto.s.skey == HKDFX(SEED, "", 0, 32) && sub(conn.txCrypto.s.siv, 0, 8) == HKDFX(SEED, "", 32, 40) && ctr1(conn.txCrypto.s.siv) && conn.txCrypto.mac.hkey == HKDFX(SEED, "", 80, 112)
 //@       && conn.rxCrypto.s.skey == HKDFX(SEED, "", 40, 72) && sub(conn.rxCrypto.s.siv, 0, 8) == HKDFX(SEED, "", 72, 80) && ctr1(conn.rxCrypto.s.siv) && conn.rxCrypto.mac.hkey == HKDFX(SEED, "", 112, 144)
-//@       && conn.txCrypto.s.spos == 0 && conn.rxCrypto.s.spos == 0
+//@       && conn.txCrypto.s.spos == 0 && conn.rxCrypto.s.spos == 0 && fresh(conn.txCrypto.mac) && fresh(conn.rxCrypto.mac) && fresh(conn.txCrypto.s) && fresh(conn.rxCrypto.s)
 
 //@ func newTicketClientHandshake(mac, ticket) (hs)
 //@   serves C15
-//@   nobody
-//@   ensures hs != nil && fresh(hs)
+//@   ensures hs != nil && fresh(hs) && hs.mac == mac && hs.ticket == ticket && 0 <= hs.padLen && hs.padLen <= 1388
+
+// Session-ticket handshake of the ScrambleSuit specification: T | P | M | MAC(T | P | M | E) with
+// M = MAC(T), both MACs truncated to 16 bytes, E the decimal epoch hour, P the random padding.
 //@ func (*ssTicketClientHandshake).generateHandshake(hs) (blob, err)
 //@   serves C15
-//@   nobody
-//@   modifies hs.*
-//@   ensures err == nil ==> blob != nil && fresh(blob)
+//@   requires hs != nil && hs.mac != nil && hs.mac.hsize == 32 && hs.ticket != nil && 0 <= hs.padLen && hs.padLen <= 1388
+//@   modifies hs.mac.absorbed, now
+//@   ghost T := seq(hs.ticket.ticket)
+//@   ghost PL := hs.padLen
+//@   ensures [C15:ticket_handshake_layout] err == nil ==> blob != nil && len(blob) == 112 + PL + 32 && sub(seq(blob), 0, 112) == T
+//@       && sub(seq(blob), 112 + PL, 128 + PL) == sub(HASH(hs.mac.halg, hs.mac.hkey, T), 0, 16)
+//@   ensures [C15:ticket_handshake_mac] err == nil ==> sub(seq(blob), 128 + PL, 144 + PL)
+//@       == sub(HASH(hs.mac.halg, hs.mac.hkey, cat(sub(seq(blob), 0, 128 + PL), fmtInt((now / 1000000000) / 3600, 10))), 0, 16)
+//@   ensures (err == nil ==> len(hs.mac.absorbed) == 0) && unchanged(hs.padLen, hs.ticket, hs.mac)
+// UniformDH handshake of the ScrambleSuit specification: X | P_C | M_C | MAC(X | P_C | M_C | E) with
+// M_C = MAC(X), both truncated to 16 bytes; X is the 192-byte public key, E the decimal epoch hour, which
+// is remembered for the check of the server's answer.
 //@ func (*ssDHClientHandshake).generateHandshake(hs) (blob, err)
 //@   serves C15
-//@   nobody
-//@   requires dhHsInv(hs)
-//@   modifies hs.mac.*, hs.epochHour
-//@   ensures dhHsInv(hs) && (err == nil ==> blob != nil && fresh(blob))
+//@   requires dhHsInv(hs) && hs.keypair != nil && 0 <= hs.padLen && hs.padLen <= 1308
+//@   modifies hs.mac.absorbed, hs.epochHour, now
+//@   ghost X := seq(hs.keypair.PublicKey.bytes)
+//@   ghost PL := hs.padLen
+//@   ensures dhHsInv(hs) && unchanged(hs.padLen, hs.keypair, hs.mac, hs.serverPublicKey, hs.serverMark) && (err == nil ==> blob != nil)
+//@   ensures [C15:dh_handshake_layout] err == nil ==> len(blob) == 192 + PL + 32 && sub(seq(blob), 0, 192) == X
+//@       && sub(seq(blob), 192 + PL, 208 + PL) == sub(HASH(hs.mac.halg, hs.mac.hkey, X), 0, 16)
+//@   ensures [C15:dh_handshake_mac] err == nil ==> seq(hs.epochHour) == fmtInt((now / 1000000000) / 3600, 10) && sub(seq(blob), 208 + PL, 224 + PL)
+//@       == sub(HASH(hs.mac.halg, hs.mac.hkey, cat(sub(seq(blob), 0, 208 + PL), seq(hs.epochHour))), 0, 16)
 
 //@ func newDHClientHandshake(kB, sessionKey) (hs)
 //@   serves C15 C10
 //@   requires kB != nil
-//@   ensures hs != nil && fresh(hs) && dhHsInv(hs) && hs.keypair == sessionKey && hs.serverPublicKey == nil && fresh(hs.mac)
+//@   ensures hs != nil && fresh(hs) && dhHsInv(hs) && hs.keypair == sessionKey && hs.serverPublicKey == nil && fresh(hs.mac) && 0 <= hs.padLen && hs.padLen <= 1308
 
 // Tickets are single use: the ticket is removed from the store BEFORE the store is checkpointed, so a
 // used ticket never survives on disk.
@@ -143,6 +159,7 @@ package scramblesuit
 //@   serves C15 C10
 //@   requires ssTx(conn) && burst != nil && whole(burst) && 0 <= sampleLen && sampleLen <= 1448
 //@   modifies burst.content, conn.txCrypto.s.spos, conn.txCrypto.mac.absorbed
+//@   opt dead_return.1 `if padLen == 0 { return nil }` follows `if padLen < 21 { padLen += 1448 }`: padLen is at least 21 there (the verifier refutes every path to it)
 //@   ghost B0 := burst.content
 //@   ensures [C15:padding_never_fails] err == nil
 //@   ensures [C15:burst_tail_is_the_sample] ((len(burst.content) - sampleLen) % 1448 == 0 || (len(burst.content) - sampleLen + 21) % 1448 == 0) && sub(burst.content, 0, len(B0)) == B0
@@ -164,16 +181,25 @@ package scramblesuit
 
 // ---- receive side ----
 //@ pred ssRx(conn) := conn != nil && conn.Conn != nil && csOK(conn.rxCrypto) && conn.rxCrypto.s.spos >= 0 && conn.receiveBuffer != nil && whole(conn.receiveBuffer) && conn.receiveDecodedBuffer != nil && whole(conn.receiveDecodedBuffer)
-//@     && conn.receiveBuffer != conn.receiveDecodedBuffer && conn.lenDist != nil && rangeOK(conn.lenDist) && conn.ticketStore != nil && !typeis(conn.Conn, "*scramblesuit.ssConn")
+//@     && conn.receiveBuffer != conn.receiveDecodedBuffer && conn.lenDist != nil && rangeOK(conn.lenDist) && conn.ticketStore != nil && conn.ticketStore.store != nil && !typeis(conn.Conn, "*scramblesuit.ssConn")
 //@     && (conn.receiveState.mac != nil ==> len(conn.receiveState.mac) == 16)
 //@     && (conn.receiveState.hdr != nil ==> len(conn.receiveState.hdr) == 5 && conn.receiveState.mac != nil && 0 <= conn.receiveState.payloadLen && conn.receiveState.payloadLen <= conn.receiveState.totalLen && conn.receiveState.totalLen <= 1427)
 //@     && (conn.receiveState.hdr == nil ==> conn.receiveState.totalLen == 0 && conn.receiveState.payloadLen == 0)
 
+//@ func newTicket(raw) (t, err)
+//@   serves C15
+//@   modifies now
+//@   ensures (err == nil) == (len(raw) == 144) && (err == nil) == (t != nil)
+//@   ensures [C15:ticket_is_key_then_ticket] err == nil ==> fresh(t) && seq(t.key) == sub(seq(raw), 0, 32) && seq(t.ticket) == sub(seq(raw), 32, 144) && t.issuedAt == now / 1000000000
+
+// A ticket received from the server replaces the one stored for that bridge and is checkpointed.
 //@ func (*ssTicketStore).storeTicket(s, addr, rawT) ()
 //@   serves C15
-//@   nobody stores the ticket and checkpoints the store; only the frame is stated
-//@   requires s != nil
+//@   requires s != nil && s.store != nil && addr != nil
 //@   modifies s.store.*, file(s.filePath), fexists(s.filePath), crashed, now
+//@   assert_at ssTicketStore).serialize#1 [C15:new_ticket_is_in_the_store_before_the_checkpoint] maphas(s.store, ADDRSTR(addr))
+//@   ensures [C15:valid_ticket_is_stored] len(rawT) == 144 ==> maphas(s.store, ADDRSTR(addr))
+//@   ensures [C15:invalid_ticket_is_ignored] len(rawT) != 144 ==> unchanged(file(s.filePath), fexists(s.filePath))
 
 // readPackets: one network read, then as many complete packets as are buffered.  Only the payload of a
 // packet whose MAC (over the ciphertext, with the receive key) verified is surfaced, in order; a packet
